@@ -63,6 +63,8 @@ structure St where
   sh : ShiftSpec.St := {}
   pol : PolSt := {}
   rk : RackD.St := {}                  -- RACK / PTO / TLR model (Driver/Rack.lean)
+  selIl : Bool := false                -- [C01,C17] the sequence uses interleaving (`as new … il`)
+  selUnord : Bool := false             -- [C01,C17] some stream of the sequence was opened unordered
   deriving Inhabited
 
 def oraKey (ora : List String) (k : String) : Option String :=
@@ -208,6 +210,22 @@ def specStep (st : SenderSpec.St) (op impl : List String) : SenderSpec.St × Lis
     | none => ({ st with obs := post, haveObs := true }, checkObs st post)
   | _ => ({ st with pendingCheck := some ("op", op ++ ["->"] ++ impl) }, [])
 
+/-- P_[C01,C17] — the tie between the `sel` oracle of the Sender model and the real pending queue, on the
+implementation's own log: in a sequence without interleaving whose streams were all opened ORDERED, every index the
+harness logged in `as ora … sel=` (position, in its push-order shadow of the real queue, of each chunk the real
+`pendingQueue` handed out, then of the chunk at its head) is 0 — the queue hands out the OLDEST chunk every time
+(`C17_ordered_only_fifo`), which is the hypothesis `SelFifo` of `C01_netsys_prefix_fifo`. -/
+def selFifoStep (st : St) (op : List String) : St × List String :=
+  match op with
+  | "new" :: _mtu :: _rcv :: _minCwnd :: il :: _ => ({ st with selIl := il == "1", selUnord := false }, [])
+  | ["open", _si, u, _rt, _rv, _th] => (if u == "1" then { st with selUnord := true } else st, [])
+  | "ora" :: kvs =>
+    let sel := natList (oraKey kvs "sel")
+    if !st.selIl && !st.selUnord && sel.any (· != 0) then
+      (st, [s!"[C01,C17] no interleaving, ordered streams only: the pending queue handed out the chunks at shadow indices {sel} — not the oldest queued chunk (index 0) every time"])
+    else (st, [])
+  | _ => (st, [])
+
 def step (st : St) (op impl : List String) : St × Option String × List String :=
   match op with
   | ["rk"] =>
@@ -219,6 +237,7 @@ def step (st : St) (op impl : List String) : St × Option String × List String 
     let (rk, r) := RackD.onRke st.rk st.m op impl
     ({ st with sh := sh, rk := rk }, some r, e.toList)
   | _ =>
+    let (st, sv) := selFifoStep st op
     let (sp, v) := specStep st.spec op impl
     let (sh, e) := ShiftSpec.step st.sh op impl
     let (pol, pv) := polStep st.pol op impl
@@ -228,6 +247,6 @@ def step (st : St) (op impl : List String) : St × Option String × List String 
       | "st" :: _ => st'
       | "ora" :: _ => st'
       | _ => { st' with rk := { st'.rk with pend := some { op := op, ora := st.ora, mPre := st.m } } }
-    (st', r, v ++ e.toList ++ pv)
+    (st', r, v ++ e.toList ++ pv ++ sv)
 
 end Drv.Assoc
